@@ -158,7 +158,7 @@ def view(score):
     def grp(g):
         if isinstance(g, sc.PartGroup):
             return ("group", g.group_symbol, g.group_name, [grp(c) for c in g.children])
-        return ("part", g.id, g.part_name)
+        return ("part", g.id, g.part_name, getattr(g, "part_abbreviation", None))
     v["parts_and_groups"] = [grp(g) for g in score.part_structure]
     for p in score.parts:
         pid = p.id
